@@ -26,6 +26,14 @@ func main() {
 		decodeWorkerMain()
 		return
 	}
+	if name == "race-worker" { // evaluates race workloads (one JSON per line) under the race detector, see race_worker.go
+		raceWorkerMain()
+		return
+	}
+	if name == "race-corpus" { // prints corpus/C18/race.jsonl
+		raceCorpusMain()
+		return
+	}
 	fs := flag.NewFlagSet(name, flag.ExitOnError)
 	seed := fs.Int64("seed", 1, "")
 	tier := fs.String("tier", "quick", "")
